@@ -441,11 +441,11 @@ func (c *c29Ctx) mkCase(path []c29Op) c29Case {
 }
 
 func c29Shape(got, want []string) string {
-	return c28ShapeC29(got, want)
+	return c29ShapeImpl(got, want)
 }
 
 // (own copy of the list-difference classifier: C28's lives in a file --solo does not compile)
-func c28ShapeC29(got, want []string) string {
+func c29ShapeImpl(got, want []string) string {
 	if len(got) == len(want) {
 		same := true
 		for i := range got {
